@@ -180,7 +180,7 @@ class Batch:
     def add_events(self, events, meta):
         self.items.append((events, meta))
 
-    def drift_check(self, verdict, limit=300):
+    def drift_check(self, verdict, limit=None):
         """Replay a seeded sample of the recorded histories through BreadlogRun's own actions (RunTrace.tla); runs that
         are not behaviours of the verified model are reported as SPEC-DRIFT (never a violation)."""
         import random
@@ -189,6 +189,8 @@ class Batch:
                 and meta.get("sig", {}).get("fault") != "short" and "short=" not in json.dumps(meta.get("steps", ""))]
         if not elig:
             return
+        if limit is None:
+            limit = 400 if verdict.tier == "thorough" else 120
         rnd = random.Random(common.seed() + 17)
         if len(elig) > limit:
             elig = rnd.sample(elig, limit)
